@@ -192,7 +192,7 @@ def check_case(case) -> Result:
             d = dist[0][0] - mono
             half = 0.5 * 10 ** (-res) + 1e-9
             if abs(d) > half:
-                if particles and int_formula and abs(d + part_off) <= ne * 10 ** (-res) + 1e-9:
+                if particles and int_formula and abs(part_off) > 2 * half and abs(d + part_off) <= half:
                     sig = 'C14/lightest-peak/particle-offset-ignored-for-integer-formula'
                 elif _rounded_per_element(comp, dist[0][0], res, ne):
                     # the masses are rounded to the resolution after every element is folded in, not once at the end
